@@ -67,7 +67,7 @@ def _gen_script(rng, i):
   if kind == 'thrift' and rng.random() < 0.5:
     s['pool'] = {'max_watermark': rng.choice([1, 1, 2]), 'min_watermark': rng.choice([0, 1]),
                  'max_queue_len': rng.choice([0, 1, 2, 1000])}
-  template = rng.choice(['random', 'random', 'preopen', 'queue', 'connect', 'latereply', 'faults', 'members', 'sendq', 'pingrace',
+  template = rng.choice(['random', 'random', 'preopen', 'preopen', 'preopen', 'queue', 'connect', 'latereply', 'faults', 'members', 'sendq', 'pingrace',
                          'agedtags' if kind == 'mux' else 'random', 'opentick', 'emptyset', 'bigstall', 'deadq', 'twinlate', 'jitterhang',
                          'pinglate' if kind == 'mux' else 'bigstall', 'dupq' if kind == 'mux' else 'deadq'])
   steps = s['steps']
@@ -84,7 +84,7 @@ def _gen_script(rng, i):
     if rng.random() < 0.5:
       # the open completes inside the last timer tick before the first call's deadline: the call reaches
       # the timeout sink (and every hop below) with 1..9 ms to go
-      s['plans'] = [['ok', T1 - rng.randint(1, 9)] for _ in range(nep)]
+      s['plans'] = [['ok', T1 - rng.choice([1, 1, 2, 2, 3, 4, 6, 9])] for _ in range(nep)]
     issue(T1)
     steps.append(['adv', rng.choice([10, 30])])
     issue()
@@ -364,7 +364,24 @@ def cases(prop, tier, seed):
   rng = random.Random(7919 * int(seed) + 101)
   rng2 = random.Random(31 * int(seed) + 7)
   n = 1200 if tier == 'quick' else 24000
-  return [_decorate(rng2, _gen_script(rng, i)) for i in range(n)]
+  out = [_decorate(rng2, _gen_script(rng, i)) for i in range(n)]
+  # large requests through a socket whose send() accepts only part of the buffer (own generator: the scripts above
+  # are not perturbed)
+  rng3 = random.Random(53 * int(seed) + 29)
+  for i in range(16 if tier == 'quick' else 160):
+    kind = 'mux' if i % 2 else 'thrift'
+    steps = [['adv', 100]]
+    c = 0
+    for _ in range(rng3.randint(3, 5)):
+      c += 1
+      steps.append(['issue', c, 2003, rng3.choice([66000, 70000, 140000, 224000])])
+      steps.append(['adv', 10])
+      steps.append(['reply', 0])
+      steps.append(['adv', 10])
+    steps.append(['adv', 50])
+    out.append({'kind': kind, 'nep': 1, 'rseed': rng3.randint(0, 10 ** 6), 'open_timeout': None, 'plans': [['ok', 0]],
+                'steps': steps, 'pool': None, 'auto': None, 'send_max': rng3.choice([65000, 60000, 40000, 700, 65536])})
+  return out
 
 
 # ------------------------------------------------------------------ driver
